@@ -436,6 +436,19 @@ func (m *Manager) lock() {
 		}
 	}
 
+	// Zero and drop all cached derived private keys.
+	for _, manager := range m.scopedManagers {
+		manager.privKeyCache.Range(
+			func(_ DerivationPath, k *cachedKey) bool {
+				k.key.Zero()
+				return true
+			},
+		)
+		manager.privKeyCache = lru.NewCache[DerivationPath, *cachedKey](
+			defaultPrivKeyCacheSize,
+		)
+	}
+
 	// Remove clear text private keys and scripts from all address entries.
 	for _, manager := range m.scopedManagers {
 		for _, ma := range manager.addrs {
